@@ -651,6 +651,51 @@ func ruleT7(c *Ctx) {
 	c.check(nLF >= 1 && nCR >= 3 && nOther >= 3, "T7", "hInit:paths", token.NoPos, fmt.Sprintf("initial-state paths by first byte: LF %d, CR %d, other %d (frozen minimum 1/3/3)", nLF, nCR, nOther))
 }
 
+// T9: a header type is not a flag. The package's named integer types are different units (HdrT an ordinal, HdrFlags a
+// bit set, OffsT a position, ErrorHdr a verdict, ...); the flag of a type is 1 << type, computed inside HdrFlags.Set /
+// Test. A direct conversion from one of these named types to another (HdrFlags(t) for a HdrT t) reinterprets the
+// ordinal as a mask: GetHdr would answer from whichever other headers happen to be present.
+func ruleT9(c *Ctx) {
+	var keys []string
+	for k := range c.Prog.SFuncs {
+		keys = append(keys, k)
+	}
+	sort.Strings(keys)
+	nConv, nBad := 0, 0
+	for _, k := range keys {
+		fn := c.Prog.SFuncs[k]
+		if fn == nil {
+			continue
+		}
+		for _, b := range fn.Blocks {
+			for _, ins := range b.Instrs {
+				var cvX ssa.Value
+				var cv ssa.Value
+				switch x := ins.(type) {
+				case *ssa.Convert:
+					cvX, cv = x.X, x
+				case *ssa.ChangeType: // same underlying type: still a change of unit
+					cvX, cv = x.X, x
+				default:
+					continue
+				}
+				nConv++
+				a, ok1 := cvX.Type().(*types.Named)
+				r, ok2 := cv.Type().(*types.Named)
+				if !ok1 || !ok2 || a == r || a.Obj().Pkg() != c.Prog.Types || r.Obj().Pkg() != c.Prog.Types {
+					continue
+				}
+				if !isIntType(a) || !isIntType(r) {
+					continue
+				}
+				nBad++
+				c.fail("T9", fmt.Sprintf("%s:%s->%s#%d", k, a.Obj().Name(), r.Obj().Name(), nBad), cv.Pos(), fmt.Sprintf("a value of the named type %s is converted directly to the named type %s (an ordinal is not a bit mask / a position / a verdict)", a.Obj().Name(), r.Obj().Name()))
+			}
+		}
+	}
+	c.check(nConv >= 50, "T9", "conversions", token.NoPos, fmt.Sprintf("%d integer conversions inspected, %d between two distinct named types of the package (frozen minimum 50 inspected)", nConv, nBad))
+}
+
 func init() {
 	register(&PropDef{
 		ID: "C07",
@@ -660,6 +705,7 @@ func init() {
 			{"T3", "the flag word has a bit for every header type, HdrOther is the largest type, the first-of-type table has HdrOther-1 slots indexed Type-1 and keeps the first header of a type", ruleT3},
 			{"T5", "line-end accounting in every streaming caller: on every path from an end-of-header verdict of a line-end skipper (offset, line-end length, verdict) to a return with a completing verdict, the returned offset is that call's offset plus that call's line-end length (phis resolved by the edge taken), never a guessed length", ruleT5},
 			{"T6", "exact byte sets of the scanners header names and generic values are cut with (shared with C08-S5): skipTokenDelim, skipToken, skipWS, skipLine", func(c *Ctx) { scannerSets(c, "T6") }},
+			{"T9", "a header type is not a flag: no value of one named integer type of the package (HdrT, HdrFlags, OffsT, ErrorHdr, SIPMethod, ...) is converted directly to another one; the flag of a header type exists only as 1 << type inside HdrFlags.Set/Test, so the type-flag set and the first-of-type lookup are indexed consistently", ruleT9},
 			{"T8", "the automaton extracted from ParseHdrLine equals the reviewed reference table (ref/ParseHdrLine.txt): for every state and byte class the next state or exit, the verdict set, the field actions with their arguments (locals other than the scan index abstracted) and the returned offset; a transition that loses an action, changes target, verdict or byte class shows up as a missing and an extra row", func(c *Ctx) { fsmRefRule(c, "T8", "ParseHdrLine") }},
 			{"T7", "the empty line that ends the block, from the extracted ParseHdrLine automaton in its initial state: lone LF -> (index+1, empty) with no callee and no look-ahead; CR LF -> (index+2, empty); CR other -> (index+1, empty); CR as last byte may ask for more; no other first byte yields empty", ruleT7},
 			{"T4", "exact decision table of skipCRLF from byte sets at each return: CR LF advances 2, lone CR (next byte not LF) or lone LF advances 1, anything else does not advance", ruleT4},
